@@ -174,6 +174,120 @@ def _specialise(ctx, stmts: list, kind: str) -> list:
     return res
 
 
+def _is_join_parts(e) -> bool:
+    return isinstance(e, ast.Call) and isinstance(e.func, ast.Attribute) and e.func.attr == "join" and isinstance(e.func.value, ast.Constant) \
+        and e.func.value.value == "" and len(e.args) == 1 and isinstance(e.args[0], ast.Name) and e.args[0].id == "parts"
+
+
+def _accumulator_form(body: list) -> list:
+    """The emitter either accumulates pieces in `parts` and joins them at the end (pinned shape) or returns each kind's text
+    from its own arm.  The second form is rewritten to the first, statement by statement, so that the rules read one shape:
+    a sequence `if kind ...: ...; return E` becomes one if/elif chain; `return E` -> `parts.append(E)`;
+    `return "".join(parts)` -> nothing; `parts = [a, b]` -> appends; `parts += (a, b)` -> appends;
+    `parts.extend(map(f, xs))` -> `for x in xs: parts.append(f(x))`.  Every step is an equivalence as long as `parts` is empty
+    when the dispatch starts, which holds because the rewritten form only ever creates it inside an arm.  Bodies without a
+    returning kind arm are returned unchanged."""
+    import copy
+
+    def kind_test(st) -> bool:
+        return isinstance(st, ast.If) and isinstance(st.test, ast.Compare) and unparse(st.test.left) == "kind"
+
+    def always_returns(block) -> bool:
+        if not block:
+            return False
+        last = block[-1]
+        if isinstance(last, (ast.Return, ast.Raise)):
+            return True
+        if isinstance(last, ast.If) and last.orelse:
+            return always_returns(last.body) and always_returns(last.orelse)
+        return False
+
+    start = [i for i, st in enumerate(body) if kind_test(st)]
+    if not start or not any(kind_test(st) and not st.orelse and always_returns(st.body) for st in body):
+        return body
+    # parts must not be live before the dispatch
+    first = start[0]
+    if any(isinstance(n, ast.Name) and n.id == "parts" for st in body[:first] for n in ast.walk(st)):
+        return body
+
+    def app(e, at):
+        c = ast.Expr(value=ast.Call(func=ast.Attribute(value=ast.Name(id="parts", ctx=ast.Load()), attr="append", ctx=ast.Load()),
+                                    args=[e], keywords=[]))
+        ast.copy_location(c, at)
+        ast.fix_missing_locations(c)
+        return c
+
+    def conv(block) -> list:
+        out = []
+        for st in block:
+            if isinstance(st, ast.Return):
+                if st.value is None:
+                    raise AnalysisError("to_wikitext: an emitter arm returns None")
+                if not _is_join_parts(st.value):
+                    out.append(app(st.value, st))
+                continue
+            tgt = val = None
+            if isinstance(st, ast.Assign) and len(st.targets) == 1:
+                tgt, val = st.targets[0], st.value
+            elif isinstance(st, ast.AnnAssign) and st.value is not None:
+                tgt, val = st.target, st.value
+            if isinstance(tgt, ast.Name) and tgt.id == "parts" and isinstance(val, (ast.List, ast.Tuple)):
+                out.extend(app(e, st) for e in val.elts)
+                continue
+            if isinstance(st, ast.AugAssign) and isinstance(st.op, ast.Add) and unparse(st.target) == "parts" \
+                    and isinstance(st.value, (ast.List, ast.Tuple)):
+                out.extend(app(e, st) for e in st.value.elts)
+                continue
+            if isinstance(st, ast.Expr) and isinstance(st.value, ast.Call) and unparse(st.value.func) == "parts.extend" and len(st.value.args) == 1:
+                a = st.value.args[0]
+                if isinstance(a, ast.Call) and unparse(a.func) == "map" and len(a.args) == 2:
+                    loop = ast.For(target=ast.Name(id="x", ctx=ast.Store()), iter=a.args[1],
+                                   body=[app(ast.Call(func=a.args[0], args=[ast.Name(id="x", ctx=ast.Load())], keywords=[]), st)], orelse=[])
+                    ast.copy_location(loop, st)
+                    ast.fix_missing_locations(loop)
+                    out.append(loop)
+                    continue
+                if isinstance(a, (ast.List, ast.Tuple)):
+                    out.extend(app(e, st) for e in a.elts)
+                    continue
+            if isinstance(st, ast.If):
+                st = copy.copy(st)
+                st.body = conv(st.body) or [ast.copy_location(ast.Pass(), st)]
+                st.orelse = conv(st.orelse)
+            elif isinstance(st, (ast.For, ast.While)):
+                st = copy.copy(st)
+                st.body = conv(st.body)
+            out.append(st)
+        return out
+
+    # chain the returning arms: `if A: ..return; if B: ..return; REST`  ==  `if A: .. elif B: .. else: REST`
+    def chain(stmts) -> list:
+        if not stmts:
+            return []
+        st = stmts[0]
+        if kind_test(st) and not st.orelse and always_returns(st.body):
+            n = ast.If(test=st.test, body=conv(st.body) or [ast.copy_location(ast.Pass(), st)], orelse=chain(stmts[1:]))
+            ast.copy_location(n, st)
+            return [n]
+        if kind_test(st):
+            # an if/elif chain already: convert its arms in place
+            def conv_if(n):
+                m = ast.If(test=n.test, body=conv(n.body) or [ast.copy_location(ast.Pass(), n)],
+                           orelse=[conv_if(n.orelse[0])] if len(n.orelse) == 1 and isinstance(n.orelse[0], ast.If) else conv(n.orelse))
+                return ast.copy_location(m, n)
+            return [conv_if(st)] + chain(stmts[1:])
+        return conv([st]) + chain(stmts[1:])
+
+    return body[:first] + chain(body[first:])
+
+
+def _emitter_body(ctx) -> list:
+    from ..core import special
+    fn = ctx.fn(RECURSE)
+    body = special.normalise_get_dispatch(list(fn.body), "kind", X.scopes_of(ctx, fn))
+    return _accumulator_form(body)
+
+
 def _emitter_arms(ctx) -> dict:
     fn = ctx.fn(RECURSE)
     arms = {}
@@ -201,7 +315,7 @@ def _emitter_arms(ctx) -> dict:
         elif n.orelse:
             arms["%else"] = n.orelse
 
-    for st in fn.body:
+    for st in _emitter_body(ctx):
         if isinstance(st, ast.If) and isinstance(st.test, ast.Compare) and unparse(st.test.left) == "kind":
             visit(st)
     return arms, level_arm
